@@ -262,7 +262,7 @@ def real_specs(ctx):
                   'dt': 0.1, 'N_steps': 1, 'final_time': 0.4})
     specs.append({'sim': 'RealTimeEvolution', 'alg': 'SingleSiteTDVPEngine', 'fmt': 'h5', 'L': 4, 'chi': 4,
                   'dt': 0.1, 'N_steps': 2, 'final_time': 0.5})
-    if ctx.thorough() or not ctx.proof.ok:
+    if ctx.thorough():
         for alg in ['TwoSiteDMRGEngine', 'SingleSiteDMRGEngine']:
             for fmt in fmts:
                 specs.append({'sim': 'GroundStateSearch', 'alg': alg, 'fmt': fmt, 'L': rng.choice([4, 6, 8]),
@@ -430,7 +430,7 @@ def main(ctx):
         for i in range(shards):
             jobs.append(dict(kind='fs_enum', fmt=fmt, safe=safe, nsteps=nsteps, depth=depth, window=window, partials=partials,
                              s_mod=[i, shards]))
-    if ctx.thorough() or intens:
+    if ctx.thorough():
         add('pkl', True, 2, 3, 9, [0, 0.5], 8)
         add('pkl', True, 3, 2, None, partial_q, 6)
         add('pkl', True, 1, 3, None, partial_q, 2)
@@ -444,6 +444,9 @@ def main(ctx):
         add('pkl', True, 1, 3, None, [0.5], 1)
         add('h5', True, 2, 2, 8, [0.5], 7)
         add('pkl', False, 2, 2, 7, [0.5], 1)
+        if intens:      # a proof obligation is broken: search deeper (three process life times)
+            add('pkl', True, 2, 3, 8, [0.5], 8)
+            add('pkl', True, 3, 2, None, [0, 0.5], 4)
     # the witness of T18_crash_safe_resumed_refuted, replayed literally on the real code
     jobs.append(dict(kind='fs_single', fmt='pkl', safe=True, nsteps=1, hist=[[10, True, 0.5], [5, False, None]], witness=True))
     # ---- 2. save_results / fix_output_filenames from arbitrary states
